@@ -12,8 +12,13 @@ use std::collections::HashMap;
 use std::panic::{catch_unwind, AssertUnwindSafe};
 use std::sync::Arc;
 use verif_harness::line_loop;
+use verif_harness::util::show_frame;
 
 const HUGE: u64 = u64::MAX;
+const BAD_KINDS: [&str; 23] = ["create-badid", "create-arity", "create-wrongtype", "setid-badid", "setid-arity", "setid-wrongtype",
+    "destroy-arity", "destroy-wrongtype", "delc-arity", "delc-wrongtype", "createc-arity", "unknown-sub", "ack-badid", "ack-arity",
+    "ack-wrongtype", "claim-badidle", "claim-badid", "claim-arity", "read-badid", "read-unbalanced", "read-syntax",
+    "pending-badcount", "pending-syntax"];
 
 fn main() {
     // `impl_grp handlers`: the same protocol answered through the RESP command handlers
@@ -101,6 +106,8 @@ fn with_dump(s: &Stream, reply: String) -> String {
 
 fn step(s: &mut Stream, ws: &[&str]) -> Option<String> {
     Some(match ws {
+        // malformed commands exist only at handler level (the typed API cannot express them)
+        ["bad", kind, g] => { num(g)?; if BAD_KINDS.contains(kind) { "refused".into() } else { return None } }
         ["add", id] => {
             let id = parse_id(id)?;
             match s.add_with_id(id, HashMap::new()) { Ok(()) => "ok".into(), Err(_) => "err".into() }
@@ -215,10 +222,11 @@ mod handlers {
     use ferrous::storage::commands::streams::{handle_xadd, handle_xdel};
     use ferrous::storage::{GetResult, StorageEngine, Value};
 
-    struct H { storage: Arc<StorageEngine>, key: String, n: usize }
+    struct H { storage: Arc<StorageEngine>, key: String, n: usize, creates: usize }
 
     pub fn run() {
-        let h = H { storage: StorageEngine::new(), key: "s0".into(), n: 0 };
+        let h = H { storage: StorageEngine::new(), key: "s0".into(), n: 0, creates: 0 };
+        let _ = h.storage.set_string(0, b"str".to_vec(), b"x".to_vec());   // a key of the wrong type
         line_loop(h, |h, ws| {
             if ws == ["reset"] {
                 h.n += 1;
@@ -266,6 +274,17 @@ mod handlers {
             _ => None,
         }
     }
+    /// A command for a group (or key) that does not exist still goes through its handler; every form of
+    /// "there is no such group" (NOGROUP / no-such-key error, 0, null or empty array) is reported as `nogroup`.
+    fn on_missing(missing: bool, res: ferrous::error::Result<RespFrame>) -> Result<RespFrame, String> {
+        if !missing { return res.map_err(|_| "err".to_string()); }
+        Err(match res {
+            Ok(RespFrame::Error(_)) | Ok(RespFrame::Integer(0)) | Ok(RespFrame::Array(None)) | Err(_) => "nogroup".into(),
+            Ok(RespFrame::Array(Some(ref v))) if v.is_empty() => "nogroup".into(),
+            Ok(RespFrame::Array(Some(ref v))) if v.len() == 2 && matches!(&v[1], RespFrame::Array(Some(e)) if e.is_empty()) => "nogroup".into(),
+            Ok(other) => format!("unexpected-on-missing-group:{}", show_frame(&other).replace(' ', "_")),
+        })
+    }
     fn is_err(f: &RespFrame, what: &str) -> bool { matches!(f, RespFrame::Error(b) if String::from_utf8_lossy(b).contains(what)) }
     fn strip(s: &str) -> String { s[1..].to_string() }
 
@@ -277,6 +296,43 @@ mod handlers {
         let group_of = |w: &str| -> Option<String> { Some(gname(num(w)?)) };
         let need_group = |g: &str| -> bool { stream(h).map(|s| s.get_consumer_group(g).is_some()).unwrap_or(false) };
         Some(match ws {
+            ["bad", kind, g] => {
+                // malformed / refused administration commands: whatever the reply, nothing may change
+                let g = group_of(g)?;
+                let res = match *kind {
+                    "create-badid" => handle_xgroup(st, 0, &frames(&["XGROUP", "CREATE", k, &g, "notanid", "MKSTREAM"])),
+                    "create-arity" => handle_xgroup(st, 0, &frames(&["XGROUP", "CREATE", k, &g])),
+                    "create-wrongtype" => handle_xgroup(st, 0, &frames(&["XGROUP", "CREATE", "str", &g, "0", "MKSTREAM"])),
+                    "setid-badid" => handle_xgroup(st, 0, &frames(&["XGROUP", "SETID", k, &g, "x-y"])),
+                    "setid-arity" => handle_xgroup(st, 0, &frames(&["XGROUP", "SETID", k, &g])),
+                    "setid-wrongtype" => handle_xgroup(st, 0, &frames(&["XGROUP", "SETID", "str", &g, "0-0"])),
+                    "destroy-arity" => handle_xgroup(st, 0, &frames(&["XGROUP", "DESTROY", k])),
+                    "destroy-wrongtype" => handle_xgroup(st, 0, &frames(&["XGROUP", "DESTROY", "str", &g])),
+                    "delc-arity" => handle_xgroup(st, 0, &frames(&["XGROUP", "DELCONSUMER", k, &g])),
+                    "delc-wrongtype" => handle_xgroup(st, 0, &frames(&["XGROUP", "DELCONSUMER", "str", &g, "c1"])),
+                    "createc-arity" => handle_xgroup(st, 0, &frames(&["XGROUP", "CREATECONSUMER", k, &g])),
+                    "unknown-sub" => handle_xgroup(st, 0, &frames(&["XGROUP", "FROBNICATE", k, &g])),
+                    "ack-badid" => handle_xack(st, 0, &frames(&["XACK", k, &g, "1-0", "nope"])),
+                    "ack-arity" => handle_xack(st, 0, &frames(&["XACK", k, &g])),
+                    "ack-wrongtype" => handle_xack(st, 0, &frames(&["XACK", "str", &g, "1-0"])),
+                    "claim-badidle" => handle_xclaim(st, 0, &frames(&["XCLAIM", k, &g, "c1", "soon", "1-0"])),
+                    "claim-badid" => handle_xclaim(st, 0, &frames(&["XCLAIM", k, &g, "c1", "0", "1-0", "nope"])),
+                    "claim-arity" => handle_xclaim(st, 0, &frames(&["XCLAIM", k, &g, "c1", "0"])),
+                    "read-badid" => handle_xreadgroup(st, 0, &frames(&["XREADGROUP", "GROUP", &g, "c1", "STREAMS", k, "nope"])),
+                    "read-unbalanced" => handle_xreadgroup(st, 0, &frames(&["XREADGROUP", "GROUP", &g, "c1", "STREAMS", k, k, ">"])),
+                    "read-syntax" => handle_xreadgroup(st, 0, &frames(&["XREADGROUP", "GROUP", &g, "c1", "FROB", "STREAMS", k, ">"])),
+                    "pending-badcount" => handle_xpending(st, 0, &frames(&["XPENDING", k, &g, "-", "+", "many"])),
+                    "pending-syntax" => handle_xpending(st, 0, &frames(&["XPENDING", k, &g, "-", "+"])),
+                    _ => return None,
+                };
+                match res {
+                    Ok(RespFrame::Error(_)) | Err(_) => "refused".into(),
+                    // DESTROY / DELCONSUMER / XACK on a wrong-typed or missing key may answer 0 or an empty reply: also a refusal
+                    Ok(RespFrame::Integer(0)) | Ok(RespFrame::Array(None)) => "refused".into(),
+                    Ok(RespFrame::Array(Some(ref v))) if v.is_empty() => "refused".into(),
+                    Ok(other) => format!("accepted:{}", show_frame(&other).replace(' ', "_")),
+                }
+            }
             ["add", id] => {
                 parse_id(id)?;
                 match handle_xadd(st, 0, &frames(&["XADD", k, id, "f", "v"])) {
@@ -297,7 +353,12 @@ mod handlers {
             ["create", g, id] => {
                 let g = group_of(g)?;
                 if *id != "$" { parse_id(id)?; }
-                match handle_xgroup(st, 0, &frames(&["XGROUP", "CREATE", k, &g, id, "MKSTREAM"])) {
+                // MKSTREAM is needed only when the key is missing; on an existing stream alternate with / without it
+                h.creates += 1;
+                let mk = stream(h).is_none() || h.creates % 2 == 0;
+                let mut parts = vec!["XGROUP", "CREATE", k, &g, id];
+                if mk { parts.push("MKSTREAM"); }
+                match handle_xgroup(st, 0, &frames(&parts)) {
                     Ok(RespFrame::SimpleString(_)) => "ok".into(),
                     Ok(ref f) if is_err(f, "BUSYGROUP") => "busy".into(),
                     _ => "err".into(),
@@ -313,17 +374,19 @@ mod handlers {
             ["setid", g, id] => {
                 let g = group_of(g)?;
                 if *id != "$" { parse_id(id)?; }
-                if !need_group(&g) { return Some("nogroup".into()); }
-                match handle_xgroup(st, 0, &frames(&["XGROUP", "SETID", k, &g, id])) {
+                let missing = !need_group(&g);
+                match on_missing(missing, handle_xgroup(st, 0, &frames(&["XGROUP", "SETID", k, &g, id]))) {
+                    Err(s) => s,
                     Ok(RespFrame::SimpleString(_)) => "ok".into(),
                     _ => "err".into(),
                 }
             }
             ["createc", g, c] | ["delc", g, c] => {
                 let (g, c) = (group_of(g)?, cname(num(c)?));
-                if !need_group(&g) { return Some("nogroup".into()); }
+                let missing = !need_group(&g);
                 let sub = if ws[0] == "createc" { "CREATECONSUMER" } else { "DELCONSUMER" };
-                match handle_xgroup(st, 0, &frames(&["XGROUP", sub, k, &g, &c])) {
+                match on_missing(missing, handle_xgroup(st, 0, &frames(&["XGROUP", sub, k, &g, &c]))) {
+                    Err(s) => s,
                     Ok(RespFrame::Integer(n)) => format!("{}", n),
                     _ => "err".into(),
                 }
@@ -334,9 +397,10 @@ mod handlers {
                 let mut p: Vec<String> = vec!["XREADGROUP".into(), "GROUP".into(), g.clone(), c];
                 if *count != "-" { num(count)?; p.push("COUNT".into()); p.push(count.to_string()); }
                 match *noack { "0" => {}, "1" => p.push("NOACK".into()), _ => return None }
-                if !need_group(&g) { return Some("nogroup".into()); }
+                let missing = !need_group(&g);
                 p.extend(["STREAMS".to_string(), k.to_string(), from.to_string()]);
-                match handle_xreadgroup(st, 0, &frames(&p.iter().map(|x| x.as_str()).collect::<Vec<_>>())) {
+                match on_missing(missing, handle_xreadgroup(st, 0, &frames(&p.iter().map(|x| x.as_str()).collect::<Vec<_>>()))) {
+                    Err(s) => s,
                     Ok(RespFrame::Array(Some(res))) => match res.first() {
                         None => ".".into(),
                         Some(RespFrame::Array(Some(kv))) if kv.len() == 2 => id_list(&kv[1])?,
@@ -348,11 +412,12 @@ mod handlers {
             ["ack", g, ids] => {
                 let g = group_of(g)?;
                 let v = parse_ids(ids)?;
-                if !need_group(&g) { return Some("nogroup".into()); }
+                let missing = !need_group(&g);
                 if v.is_empty() { return Some("0".into()); }
                 let mut p = vec!["XACK".to_string(), k.to_string(), g];
                 p.extend(v.iter().map(show_id));
-                match handle_xack(st, 0, &frames(&p.iter().map(|x| x.as_str()).collect::<Vec<_>>())) {
+                match on_missing(missing, handle_xack(st, 0, &frames(&p.iter().map(|x| x.as_str()).collect::<Vec<_>>()))) {
+                    Err(s) => s,
                     Ok(RespFrame::Integer(n)) => format!("{}", n),
                     _ => "err".into(),
                 }
@@ -361,13 +426,14 @@ mod handlers {
                 let (g, c) = (group_of(g)?, cname(num(c)?));
                 let idle = match *idle { "huge" => "18446744073709551615".to_string(), n => format!("{}", num(n)?) };
                 let v = parse_ids(ids)?;
-                if !need_group(&g) { return Some("nogroup".into()); }
+                let missing = !need_group(&g);
                 if v.is_empty() { return None; }
                 let mut p = vec!["XCLAIM".to_string(), k.to_string(), g, c, idle.to_string()];
                 p.extend(v.iter().map(show_id));
                 match *force { "0" => {}, "1" => p.push("FORCE".into()), _ => return None }
                 p.push("JUSTID".into());
-                match handle_xclaim(st, 0, &frames(&p.iter().map(|x| x.as_str()).collect::<Vec<_>>())) {
+                match on_missing(missing, handle_xclaim(st, 0, &frames(&p.iter().map(|x| x.as_str()).collect::<Vec<_>>()))) {
+                    Err(s) => s,
                     Ok(f) => id_list(&f).unwrap_or_else(|| "err".into()),
                     _ => "err".into(),
                 }
@@ -376,8 +442,9 @@ mod handlers {
                 let (g, c) = (group_of(g)?, cname(num(c)?));
                 let idle = match *idle { "0" => "0", "huge" => "18446744073709551615", _ => return None };
                 parse_id(start)?; num(count)?;
-                if !need_group(&g) { return Some("nogroup".into()); }
-                match handle_xautoclaim(st, 0, &frames(&["XAUTOCLAIM", k, &g, &c, idle, start, "COUNT", count, "JUSTID"])) {
+                let missing = !need_group(&g);
+                match on_missing(missing, handle_xautoclaim(st, 0, &frames(&["XAUTOCLAIM", k, &g, &c, idle, start, "COUNT", count, "JUSTID"]))) {
+                    Err(s) => s,
                     Ok(RespFrame::Array(Some(r))) if r.len() == 2 => format!("{} {}", text(&r[0])?, id_list(&r[1])?),
                     _ => "err".into(),
                 }
@@ -385,8 +452,9 @@ mod handlers {
             ["pidle", g, id] => {
                 let g = group_of(g)?;
                 parse_id(id)?;
-                if !need_group(&g) { return Some("nogroup".into()); }
-                match handle_xpending(st, 0, &frames(&["XPENDING", k, &g, id, id, "1"])) {
+                let missing = !need_group(&g);
+                match on_missing(missing, handle_xpending(st, 0, &frames(&["XPENDING", k, &g, id, id, "1"]))) {
+                    Err(s) => s,
                     Ok(RespFrame::Array(Some(rows))) => match rows.first() {
                         Some(RespFrame::Array(Some(r))) if r.len() == 4 => match r[2] { RespFrame::Integer(n) => format!("{}", n), _ => "err".into() },
                         _ => "-".into(),
@@ -396,8 +464,9 @@ mod handlers {
             }
             ["pending", g] => {
                 let g = group_of(g)?;
-                if !need_group(&g) { return Some("nogroup".into()); }
-                match handle_xpending(st, 0, &frames(&["XPENDING", k, &g])) {
+                let missing = !need_group(&g);
+                match on_missing(missing, handle_xpending(st, 0, &frames(&["XPENDING", k, &g]))) {
+                    Err(s) => s,
                     Ok(RespFrame::Array(Some(r))) if r.len() == 4 => {
                         let n = match r[0] { RespFrame::Integer(n) => n, _ => return Some("err".into()) };
                         let mn = text(&r[1]).unwrap_or_else(|| "-".into());
@@ -423,8 +492,9 @@ mod handlers {
                 num(count)?;
                 let mut p = vec!["XPENDING".to_string(), k.to_string(), g.clone(), start.to_string(), end.to_string(), count.to_string()];
                 if *c != "-" { p.push(cname(num(c)?)); }
-                if !need_group(&g) { return Some("nogroup".into()); }
-                match handle_xpending(st, 0, &frames(&p.iter().map(|x| x.as_str()).collect::<Vec<_>>())) {
+                let missing = !need_group(&g);
+                match on_missing(missing, handle_xpending(st, 0, &frames(&p.iter().map(|x| x.as_str()).collect::<Vec<_>>()))) {
+                    Err(s) => s,
                     Ok(RespFrame::Array(Some(rows))) => {
                         let mut out = Vec::new();
                         for row in rows {
